@@ -198,6 +198,8 @@ struct Ctl {
     void wait() { ++n_wait; f.wait(); }
     void step_number() { ++n_step_number; (void) f.step_number(); }
     void is_running() { ++n_is_running; (void) f.is_running(); }
+    long n_log_query = 0;
+    void log_query() { ++n_log_query; (void) f.get_folder_path().size(); (void) f.get_file_name_prefix().size(); }
     void skip(int n, bool on) {
         bool ok = false;
         try { ok = f.skip(kNames[n], on); } catch (const std::exception&) { }
@@ -241,7 +243,7 @@ static std::string run_case(const std::string& kind, unsigned seed, long rounds,
         c.reboot(); c.reset(); pause_us(r, pause); c.is_running();
         c.run(); let_it_step(2);
         // every query and lifecycle command at least once per round, in every phase of the recursion
-        c.is_running(); pause_us(r, pause); c.step_number();
+        c.is_running(); pause_us(r, pause); c.step_number(); c.log_query();
         c.reset(); let_it_step(2);
         c.reboot(); c.is_running(); pause_us(r, pause); c.step_number();   // on its way to / parked in the wait
         c.run(); let_it_step(2);
@@ -270,8 +272,23 @@ static std::string run_case(const std::string& kind, unsigned seed, long rounds,
     std::ostringstream os;
     os << "ok kind=" << kind << " logging=" << (logging ? 1 : 0) << " steps=" << g_steps.load(std::memory_order_relaxed) << " cmds=" << c.total()
        << " run=" << c.n_run << " reset=" << c.n_reset << " reboot=" << c.n_reboot << " teardown=" << c.n_teardown << " wait=" << c.n_wait
-       << " step_number=" << c.n_step_number << " is_running=" << c.n_is_running;
+       << " step_number=" << c.n_step_number << " is_running=" << c.n_is_running << " log_query=" << c.n_log_query;
     for (int n = 0; n < 6; ++n) os << " skip:" << kNames[n] << "=" << c.skip_ok[n] << "/" << c.skip_rej[n];
+    return os.str();
+}
+
+// advisory (not a command of the property): the owner reconfigures logging while the filter is stepping
+static std::string run_extlog(const std::string& kind, unsigned seed, const std::string& logdir) {
+    std::unique_ptr<FilteringAlgorithm> f = make(kind, seed);
+    if (!f) return "bad-kind";
+    g_steps.store(0, std::memory_order_relaxed);
+    f->enable_log(logdir, "ext_" + kind);
+    if (!f->boot()) return "boot-failed";
+    f->run(); let_it_step(3);
+    for (int i = 0; i < 6; ++i) { f->disable_log(); let_it_step(2); f->enable_log(logdir, "ext_" + kind); let_it_step(2); }
+    f->teardown(); f->wait();
+    std::ostringstream os;
+    os << "ok extlog kind=" << kind << " steps=" << g_steps.load(std::memory_order_relaxed);
     return os.str();
 }
 
@@ -319,6 +336,15 @@ int main() {
             try { out2 = run_afterwait(k2, s2, phase, action); }
             catch (const std::exception& e) { out2 = std::string("throw:") + e.what(); }
             std::cout << out2 << "\n" << std::flush;
+            continue;
+        }
+        if (op == "extlog") {
+            std::istringstream is3(line);
+            std::string o3, k3, d3; unsigned s3 = 0;
+            is3 >> o3 >> k3 >> s3 >> d3;
+            std::string out3;
+            try { out3 = run_extlog(k3, s3, d3); } catch (const std::exception& e) { out3 = std::string("throw:") + e.what(); }
+            std::cout << out3 << "\n" << std::flush;
             continue;
         }
         if (op != "race") { std::cout << "bad-op\n"; continue; }
